@@ -244,7 +244,7 @@ fn delay_us(t: Tier) -> &'static [u64] {
 	t.pick(&[2000][..], &[500, 2000, 3300][..])
 }
 const NONE: usize = usize::MAX;
-const SCENES: [&str; 11] = ["sound", "delayed-start", "clock", "tween", "delay", "filter", "eq", "delay, rate changed and changed back", "reverb early reflections", "delay in the feedback loop of a one-frame delay", "lfo"];
+const SCENES: [&str; 12] = ["sound", "delayed-start", "clock", "tween", "delay", "filter", "eq", "delay, rate changed and changed back", "reverb early reflections", "delay in the feedback loop of a one-frame delay", "lfo", "streaming sound"];
 const LFO_HZ: [f64; 3] = [3.0, 113.0, 1130.0];
 const LFO_WAVES: [&str; 4] = ["sine", "triangle", "saw", "pulse(0.5)"];
 const PLACEMENTS: [&str; 4] = ["main", "sub", "nested", "send"];
@@ -349,7 +349,7 @@ impl Check for C16 {
 		}
 	}
 	fn rule(&self) -> String {
-		"A: 11 scenes (incl. a delay whose rate changes and changes back, the reverb's early reflections, a delay nested in the feedback loop of a one-frame delay, and LFOs of 3 / 113 / 1130 Hz x 4 waveforms read through a track volume) x r1 x r2 x change moment {never, before callback 0..4} x internal buffer x {sound rate | delay time x placement main/sub/nested/send}; times in true seconds = sum of frames / device rate in force (the harness plays the backend and knows it; the dt handed to process is checked against it); tolerances: one device frame (+ one processing chunk where kira quantises to chunks: clock start, delayed start, tween); filter/EQ corner gain compared with the 48 kHz rendering. B: all histories <= depth over {callback, change rate, drop the parents' handles, 7 track-creation paths each with probe effect + 2 ms delay carrying a probe as feedback effect}, epilogue adopts and measures every track; oracle: on every process call the rate last told == device rate in force == 1/dt, echo time == delay_time +- 1 frame. C: E2 schedules of add-track || change+callback. states = distinct (rate, per-track adopted/told) model states; non-trivial = grid runs in which the measured event was observed / histories with at least one added track whose probe was processed".into()
+		"A: 12 scenes (incl. the sound scene with a streaming sound, a delay whose rate changes and changes back, the reverb's early reflections, a delay nested in the feedback loop of a one-frame delay, and LFOs of 3 / 113 / 1130 Hz x 4 waveforms read through a track volume) x r1 x r2 x change moment {never, before callback 0..4} x internal buffer x {sound rate | delay time x placement main/sub/nested/send}; times in true seconds = sum of frames / device rate in force (the harness plays the backend and knows it; the dt handed to process is checked against it); tolerances: one device frame (+ one processing chunk where kira quantises to chunks: clock start, delayed start, tween); filter/EQ corner gain compared with the 48 kHz rendering. B: all histories <= depth over {callback, change rate, drop the parents' handles, 7 track-creation paths each with probe effect + 2 ms delay carrying a probe as feedback effect}, epilogue adopts and measures every track; oracle: on every process call the rate last told == device rate in force == 1/dt, echo time == delay_time +- 1 frame. C: E2 schedules of add-track || change+callback. states = distinct (rate, per-track adopted/told) model states; non-trivial = grid runs in which the measured event was observed / histories with at least one added track whose probe was processed".into()
 	}
 	fn assumptions(&self) -> Vec<String> {
 		vec![
@@ -460,7 +460,7 @@ fn grid_case(t: Tier, scene: usize, r1: u32, ctx: &mut Ctx) {
 			for &ibs in ibss(t) {
 				let p = Plan { r1, r2, k, ibs };
 				let variants: Vec<(u64, usize)> = match scene {
-					0 => sound_rates(t).iter().map(|s| (*s as u64, 0)).collect(),
+					0 | 11 => sound_rates(t).iter().map(|s| (*s as u64, 0)).collect(),
 					4 | 7 | 9 => delay_us(t).iter().flat_map(|d| (0..4).map(move |pl| (*d, pl))).collect(),
 					10 => (0..LFO_HZ.len() as u64).flat_map(|f| (0..LFO_WAVES.len()).map(move |wv| (f, wv))).collect(),
 					_ => vec![(0, 0)],
@@ -469,11 +469,12 @@ fn grid_case(t: Tier, scene: usize, r1: u32, ctx: &mut Ctx) {
 					ctx.evals += 1;
 					ctx.traces += 1;
 					ord += 1;
-					let what = || format!("scene {} [{}{}]: {}", SCENES[scene], if scene == 0 { format!("sound rate {} Hz", a) } else if scene == 10 { format!("{} LFO at {} Hz mapped to a track volume of -12..0 dB", LFO_WAVES[b], LFO_HZ[a as usize]) } else if scene == 4 || scene == 7 || scene == 9 { format!("delay_time {} us on the {} track{}", a, PLACEMENTS[b], if scene == 7 { "; the rate returns to the first rate immediately before callback 6" } else { "" }) } else { String::new() }, "", p.text());
+					let what = || format!("scene {} [{}{}]: {}", SCENES[scene], if scene == 0 || scene == 11 { format!("sound rate {} Hz", a) } else if scene == 10 { format!("{} LFO at {} Hz mapped to a track volume of -12..0 dB", LFO_WAVES[b], LFO_HZ[a as usize]) } else if scene == 4 || scene == 7 || scene == 9 { format!("delay_time {} us on the {} track{}", a, PLACEMENTS[b], if scene == 7 { "; the rate returns to the first rate immediately before callback 6" } else { "" }) } else { String::new() }, "", p.text());
 					ctx.sample(ord, what);
 					let mut fails: Vec<(String, String)> = vec![];
 					let r = catch(|| match scene {
-						0 => scene_sound(&p, a as u32, &mut fails),
+						0 => scene_sound(&p, a as u32, false, &mut fails),
+						11 => scene_sound(&p, a as u32, true, &mut fails),
 						1 => scene_start(&p, false, &mut fails),
 						2 => scene_start(&p, true, &mut fails),
 						3 => scene_tween(&p, &mut fails),
@@ -532,31 +533,56 @@ fn q(x: f64, step: f64) -> i64 {
 }
 
 /// 10 ms ramp sound: duration between the half-level crossings of its edges, and index slope per second
-fn scene_sound(p: &Plan, sr: u32, fails: &mut Vec<(String, String)>) -> SceneObs {
+fn scene_sound(p: &Plan, sr: u32, streaming: bool, fails: &mut Vec<(String, String)>) -> SceneObs {
 	let n = (sr / 100) as usize;
 	let ncb = 8;
 	let mut w = world(p.r1, p.ibs, log_cap(p, ncb), None);
 	warm(&mut w)?;
 	let frames: Vec<Frame> = (0..n).map(|i| Frame::from_mono(0.25 + 0.5 * i as f32 / n as f32)).collect();
-	let data = rig::static_data(sr, frames);
+	let data = rig::static_data(sr, frames.clone());
 	let mut h = None;
+	let mut sh = None;
+	let mut dec_info = None;
+	if streaming {
+		crate::pacer::set_mode(crate::pacer::Mode::Pacer);
+	}
 	drive(&mut w, p, ncb, &mut |w, j| {
 		if j == 0 {
-			h = w.m.play(data.clone()).ok();
+			if streaming {
+				let first = crate::pacer::count();
+				let (dec, stats) = crate::probes::ScriptedDecoder::new(frames.clone(), sr, vec![64, 1, 7], 1);
+				sh = w.m.play(kira::sound::streaming::StreamingSoundData::from_decoder(dec)).ok();
+				dec_info = Some((first, stats));
+			} else {
+				h = w.m.play(data.clone()).ok();
+			}
+		}
+		if let Some((first, _)) = &dec_info {
+			// the decoder keeps far ahead of the playhead
+			crate::pacer::step_all_from(*first, n as u64 + 16);
 		}
 	})?;
 	let rec = w.rec();
 	tap_verdict(&w, p, fails);
+	if let (Some(hs), Some((first, stats))) = (sh.as_mut(), dec_info.as_ref()) {
+		// 10 ms of audio, 20 ms rendered: the stream has ended
+		if hs.state() != kira::sound::PlaybackState::Stopped {
+			fails.push((format!("streaming sound: not Stopped although twice its duration was rendered :: {}", p.phase()), format!("{} frames at {} Hz (0.01 s), 8 callbacks of 2.5 ms; state {:?}", n, sr, hs.state())));
+		}
+		hs.stop(Tween { duration: Duration::ZERO, ..Default::default() });
+		let _ = w.cb(1);
+		crate::probes::reap_decoder(*first, stats);
+	}
 	let nn = rec.v.len();
 	let (Some(on), Some(last)) = (rec.first(0, nn, |v| v > 0.125), (0..nn).rev().find(|i| rec.v[*i] > 0.375)) else {
-		fails.push((format!("sound: not heard :: {}", p.phase()), "no output above the half level".into()));
+		fails.push((format!("{}: not heard :: {}", if streaming { "streaming sound" } else { "sound" }, p.phase()), "no output above the half level".into()));
 		return Ok((false, 0));
 	};
 	let want = n as f64 / sr as f64;
 	let dur = rec.t[last + 1] - rec.t[on];
 	let tol = 1.5 * p.frame_s() + 0.5 / sr as f64;
 	if (dur - want).abs() > tol {
-		fails.push((format!("sound: duration in seconds != frames / sound rate :: {}", p.phase()), format!("{} frames at {} Hz were audible for {:.6} s, expected {:.6} s +- {:.6}", n, sr, dur, want, tol)));
+		fails.push((format!("{}: duration in seconds != frames / sound rate :: {}", if streaming { "streaming sound" } else { "sound" }, p.phase()), format!("{} frames at {} Hz were audible for {:.6} s, expected {:.6} s +- {:.6}", n, sr, dur, want, tol)));
 	}
 	// pitch: between two interior frames the coded index advances sound_rate per second
 	let guard = 3.0 / sr as f64 + p.frame_s();
@@ -583,11 +609,12 @@ fn scene_sound(p: &Plan, sr: u32, fails: &mut Vec<(String, String)>) -> SceneObs
 		let slope = (rec.v[*b] - rec.v[*a]) as f64 / (rec.t[*b] - rec.t[*a]);
 		let tolr = 0.004 + 4e-7 / (rec.v[*b] - rec.v[*a]).abs().max(1e-9) as f64;
 		if (slope / slope_want - 1.0).abs() > tolr {
-			fails.push((format!("sound: pitch (coded index per second) != sound rate :: {}", p.phase()), format!("between t={:.6} s and t={:.6} s (dt=1/{:.0}) the index advanced at {:.1} frames/s instead of {} frames/s", rec.t[*a], rec.t[*b], 1.0 / rec.dt[*a], slope / slope_want * sr as f64, sr)));
+			fails.push((format!("{}: pitch (coded index per second) != sound rate :: {}", if streaming { "streaming sound" } else { "sound" }, p.phase()), format!("between t={:.6} s and t={:.6} s (dt=1/{:.0}) the index advanced at {:.1} frames/s instead of {} frames/s", rec.t[*a], rec.t[*b], 1.0 / rec.dt[*a], slope / slope_want * sr as f64, sr)));
 			break;
 		}
 	}
 	drop(h);
+	drop(sh);
 	Ok((!slopes.is_empty(), hash64(&(q(dur - want, p.frame_s() / 2.0), slopes.len()))))
 }
 
